@@ -5,7 +5,7 @@
     "passive" = the trigger returns None, returns a Deferred or raises, but does not itself add or
     remove triggers of the event while it fires (the property's quantifier). *)
 From Coq Require Import List Arith Bool.
-From C12 Require Import Model Proofs.
+From C12 Require Import Model Proofs Proofs2.
 Import ListNotations.
 
 (** `while self.before:` — every before-trigger is called exactly once, in registration order, WHATEVER it
@@ -73,3 +73,36 @@ Theorem sample_history_runs_as_stated :
   = [ERun PBefore 0 0; ERun PBefore 1 0; ERun PBefore 2 0; EWarn; ERun PDuring 3 0; ERun PDuring 4 0].
 Proof. exact sample_history_trace. Qed.
 Print Assumptions sample_history_runs_as_stated.
+
+(** EXACTLY-ONCE ACCOUNTING for arbitrary triggers — also triggers that add and remove triggers of the event while
+    it fires (re-entrantly), that raise, whose removeTrigger fails, and even when the fuel runs out: after EVERY
+    history, for every phase and trigger (registrations are identified as the code identifies them: equal handles),
+        #registered  =  #still listed  +  #called  +  #removed by removeTrigger.
+    No registration is ever lost, called twice, or called after having been removed. *)
+Theorem every_registration_is_listed_or_was_called_once_or_was_removed : forall bodies fuel ops ph id,
+  let s := run bodies fuel init ops in
+  cnt (is_added ph id) (out s)
+  = occ id (get ph s) + cnt (is_run ph id) (out s) + cnt (is_removed ph id) (out s).
+Proof. exact accounting_lemma. Qed.
+Print Assumptions every_registration_is_listed_or_was_called_once_or_was_removed.
+
+(** ... and each phase's loop only ends when its list is empty (or the fuel is exhausted — the real loop has no
+    fuel): together with the accounting, every trigger registered in a phase — before the firing or by another
+    trigger during it — has been called or removed when that phase ends *)
+Theorem before_phase_ends_with_an_empty_list : forall bodies f acc s,
+  before (fst (before_loop bodies f acc s)) = [] \/ oof (fst (before_loop bodies f acc s)) = true.
+Proof. exact before_loop_ends_empty. Qed.
+Print Assumptions before_phase_ends_with_an_empty_list.
+
+Theorem during_and_after_phases_end_with_an_empty_list : forall bodies ph f s,
+  get ph (phase_loop bodies ph f s) = [] \/ oof (phase_loop bodies ph f s) = true.
+Proof. exact phase_loop_ends_empty. Qed.
+Print Assumptions during_and_after_phases_end_with_an_empty_list.
+
+Theorem reentrant_sample_is_accounted_for :
+  let s := run re_bodies 50 init re_history in
+  oof s = false /\ before s = [] /\ after s = [] /\ during s = []
+  /\ cnt (is_run PBefore 1) (out s) = 1 /\ cnt (is_removed PBefore 1) (out s) = 1 /\ cnt (is_added PBefore 1) (out s) = 2
+  /\ cnt (is_run PDuring 1) (out s) = 1 /\ cnt (is_run PAfter 0) (out s) = 1.
+Proof. exact re_history_accounts. Qed.
+Print Assumptions reentrant_sample_is_accounted_for.
